@@ -452,7 +452,18 @@ reg(Prop("C11", "FEN parsing and printing are inverse and robust", "Properties/C
                          "and epd.Parse on the string + 5 byte suffix; distinct by input"),
           StreamCfg("c11uci", 3000, 60000, judge="judge_c11uci",
                     rule="two `position` commands on a fresh in-process uci.Driver followed by `fen`: accepted, parser-rejected, "
-                         "gate-rejected (piece counts), startpos, too few arguments; non-trivial = second command is a fen/startpos command")],
+                         "gate-rejected (piece counts), startpos, too few arguments; non-trivial = second command is a fen/startpos command"),
+          StreamCfg("c11seq", 1200, 40000, judge="judge_c11seq",
+                    rule="sequences of 3..5 `position` commands on ONE in-process uci.Driver (re-run on every prefix), each command "
+                         "also alone on a fresh driver: accepted fen/startpos with and without moves, parser- and gate-rejected FENs, "
+                         "the same rejected FEN repeated with an extended move list whose extra moves are legal in the current "
+                         "position, the same accepted FEN with extended/other lists, move lists stopping at a bad move; "
+                         "non-trivial = a rejected FEN is repeated with an extended list"),
+          StreamCfg("c11reuse", 2500, 80000, judge="judge_c11reuse",
+                    rule="ONE board.Board value receives 2..4 texts in a row through board.ParseFEN (with and without "
+                         "ResetHash) or epd.Parse (the tuner's reading loop), each text also parsed into a fresh Board: "
+                         "canonical FENs differing in every field (en-passant set then `-`, rights, placement, clocks), "
+                         "mutated and failing texts in between; non-trivial = a text without en-passant square follows one with")],
          trusted=["hooks board/export_verif.go (VerifSnapshot/VerifRestore/VerifFullMoves), uci/export_verif.go (VerifBoard)",
                   "strings.Fields / strings.Join / bufio.Scanner of the UCI input path are outside the model (the stream hands the "
                   "tokens to both sides and checks that strings.Fields returns them unchanged)",
